@@ -23,6 +23,8 @@ def oracle(spec, impl):
             return ("an unresolved dependency cycle ends in a circular-coupling error",
                     {"outcome": impl["error"] or "completed", "msg": impl.get("msg"), "phase": impl["phase"]}, None)
         return None
+    if impl["error"] is not None and c01.oracle(spec, impl) and c01.oracle(spec, impl)[2]:
+        return None  # a recorded finding of C01 (classified there)
     if impl["error"] is not None:
         return ("a cycle whose delay adapters cover the sum of the largest steps runs to completion",
                 {"error": impl["error"], "msg": impl.get("msg"), "phase": impl["phase"], "mode": ring.get("mode")}, None)
@@ -33,6 +35,12 @@ def oracle(spec, impl):
 
 
 def gen(ctx):
+    if ctx.rng.random() < 0.2:
+        # acyclic graphs (with pull-based components, two-output components, diamonds): no cycle to report
+        from . import c20
+        s = c20.gen_pull(ctx.rng) if ctx.rng.random() < 0.6 else sc.gen_dag(ctx.rng, kinds=["scale", "lin", "prev", "dfix"])
+        s["ring"] = {"resolved": True, "mode": "acyclic"}
+        return s
     return sc.gen_ring(ctx.rng, resolved=ctx.rng.random() < 0.6)
 
 
